@@ -225,4 +225,156 @@ Qed.
 Theorem sq_RS t t' : sq false t = sq false t' -> RS t t'.
 Proof. apply (sq_RS_len (length t)). lia. Qed.
 
+(* ---- the matched texts themselves are related ----------------------------------------------------------------- *)
+Definition lastS (v : text) : bool := match rev v with c :: _ => inS S c | [] => false end.
+(* the boundary between v and u is not inside a run *)
+Definition bnd (v u : text) : Prop := lastS v && snext_t S u = false.
+
+Lemma lastS_cons d v : v <> [] -> lastS (d :: v) = lastS v.
+Proof.
+  intros Hv. unfold lastS. cbn [rev]. destruct (rev v) as [|c r] eqn:E; [|reflexivity].
+  exfalso. apply Hv. rewrite <- (rev_involutive v), E. reflexivity.
+Qed.
+
+Lemma lastS_app a m : m <> [] -> lastS (a ++ m) = lastS m.
+Proof.
+  intros Hm. unfold lastS. rewrite rev_app_distr. destruct (rev m) as [|c r] eqn:E; [|reflexivity].
+  exfalso. apply Hm. rewrite <- (rev_involutive m), E. reflexivity.
+Qed.
+
+Lemma lastS_all v : v <> [] -> forallb (inS S) v = true -> lastS v = true.
+Proof.
+  intros Hv Fv. unfold lastS. destruct (rev v) as [|c r] eqn:E.
+  - exfalso. apply Hv. rewrite <- (rev_involutive v), E. reflexivity.
+  - assert (Hin : In c v) by (apply in_rev; rewrite E; left; reflexivity).
+    exact (proj1 (forallb_forall _ _) Fv c Hin).
+Qed.
+
+Lemma strip_all w : forallb (inS S) w = true -> strip w = [].
+Proof.
+  induction w as [|c w IH]; [reflexivity|]. cbn [forallb]. intros H. apply andb_true_iff in H. destruct H as [Hc Hw].
+  unfold strip in *. cbn [filter]. rewrite Hc. cbn [negb]. apply IH, Hw.
+Qed.
+
+Lemma strip_nil w : strip w = [] -> forallb (inS S) w = true.
+Proof.
+  induction w as [|c w IH]; [reflexivity|]. unfold strip in *. cbn [filter forallb].
+  destruct (inS S c); cbn [negb]; [intros H; apply IH, H | discriminate].
+Qed.
+
+Lemma snext_app_all w u : w <> [] -> forallb (inS S) w = true -> snext_t S (w ++ u) = true.
+Proof. destruct w as [|c w]; [congruence|]. cbn [forallb app]. intros _ H. apply andb_true_iff in H. apply H. Qed.
+
+(* an all-S prefix in front of u' cannot be related to nothing in front of u *)
+Lemma empty_prefix u v' u' :
+  RS u (v' ++ u') -> RS u u' -> forallb (inS S) v' = true -> bnd v' u' -> v' = [].
+Proof.
+  intros H1 H2 Fv B. destruct v' as [|r v']; [reflexivity|]. exfalso.
+  assert (Hs : snext_t S ((r :: v') ++ u') = true) by (apply snext_app_all; [discriminate | exact Fv]).
+  rewrite <- (RS_snext S _ _ H1) in Hs. rewrite (RS_snext S _ _ H2) in Hs.
+  unfold bnd in B. rewrite Hs, (lastS_all (r :: v')) in B by (try discriminate; exact Fv). discriminate.
+Qed.
+
+Lemma RS_sym t t' : RS t t' -> RS t' t.
+Proof. induction 1; constructor; auto. Qed.
+
+Theorem RS_prefix_inv x y : RS x y -> forall v u v' u',
+  x = v ++ u -> y = v' ++ u' -> RS u u' -> strip v = strip v' -> bnd v u -> bnd v' u' -> RS v v'.
+Proof.
+  induction 1 as [| c t t' Hc Ht IH | R R' t t' HR HR' FR FR' Hn Hn' Ht IH]; intros v u v' u' Ex Ey Hu Hst B B'.
+  - symmetry in Ex, Ey. apply app_eq_nil in Ex. apply app_eq_nil in Ey. destruct Ex as [-> _], Ey as [-> _]. constructor.
+  - destruct v as [|d v1].
+    + cbn [app] in Ex. subst u.
+      assert (Fv' : forallb (inS S) v' = true) by (apply strip_nil; rewrite <- Hst; reflexivity).
+      destruct v' as [|d' v1']; [constructor|]. exfalso. cbn [app] in Ey. injection Ey as <- _.
+      cbn [forallb] in Fv'. apply andb_true_iff in Fv'. destruct Fv' as [H1 _]. congruence.
+    + cbn [app] in Ex. injection Ex as <- Ex.
+      assert (Hsv : strip (c :: v1) = c :: strip v1) by (unfold strip; cbn [filter]; rewrite Hc; reflexivity).
+      destruct v' as [|d' v1']; [rewrite Hsv in Hst; discriminate|].
+      cbn [app] in Ey. injection Ey as <- Ey.
+      assert (Hsv' : strip (c :: v1') = c :: strip v1') by (unfold strip; cbn [filter]; rewrite Hc; reflexivity).
+      rewrite Hsv, Hsv' in Hst. injection Hst as Hst.
+      apply RS_char; [exact Hc|]. apply (IH v1 u v1' u' Ex Ey Hu Hst).
+      * destruct v1 as [|e v1]; [reflexivity|]. unfold bnd in *. rewrite lastS_cons in B by discriminate. exact B.
+      * destruct v1' as [|e v1']; [reflexivity|]. unfold bnd in *. rewrite lastS_cons in B' by discriminate. exact B'.
+  - apply app_eq_app in Ex. destruct Ex as (m & [[ER Eu] | [Ev Et]]).
+    + (* v lies inside R *)
+      assert (Fv : forallb (inS S) v = true).
+      { rewrite ER, forallb_app in FR. apply andb_true_iff in FR. apply FR. }
+      assert (Fv' : forallb (inS S) v' = true) by (apply strip_nil; rewrite <- Hst; apply strip_all, Fv).
+      destruct v as [|d v1].
+      * (* v empty: so is v' *)
+        cbn [app] in ER. subst m.
+        assert (E0 : v' = []).
+        { apply (empty_prefix u v' u'); try assumption. rewrite Eu, <- Ey. apply RS_run; assumption. }
+        subst v'. constructor.
+      * destruct m as [|e m].
+        -- (* v = R, u = t *)
+           rewrite app_nil_r in ER. cbn [app] in Eu. subst u. subst R.
+           apply app_eq_app in Ey. destruct Ey as (m' & [[ER' Eu'] | [Ev' Et']]).
+           ++ destruct v' as [|d' v1'].
+              ** exfalso. cbn [app] in ER'. subst m'.
+                 assert (Hs : snext_t S u' = true) by (rewrite Eu'; apply snext_app_all; assumption).
+                 rewrite <- (RS_snext S _ _ Hu) in Hs. congruence.
+              ** destruct m' as [|e' m'].
+                 --- rewrite app_nil_r in ER'. subst R'.
+                     rewrite <- (app_nil_r (d :: v1)), <- (app_nil_r (d' :: v1')).
+                     apply RS_run; try assumption; try reflexivity; constructor.
+                 --- exfalso. unfold bnd in B'. rewrite (lastS_all (d' :: v1')) in B' by (try discriminate; exact Fv').
+                     rewrite Eu' in B'. cbn [app RunInvDefs.snext_t] in B'.
+                     rewrite ER', forallb_app in FR'. apply andb_true_iff in FR'. destruct FR' as [_ FR'].
+                     cbn [forallb] in FR'. apply andb_true_iff in FR'. destruct FR' as [He _]. rewrite He in B'. discriminate.
+           ++ destruct m' as [|e' m'].
+              ** rewrite app_nil_r in Ev'. cbn [app] in Et'. subst v'.
+                 rewrite <- (app_nil_r (d :: v1)), <- (app_nil_r R').
+                 apply RS_run; try assumption; try reflexivity; constructor.
+              ** exfalso. rewrite Ev', forallb_app in Fv'. apply andb_true_iff in Fv'. destruct Fv' as [_ Fm].
+                 cbn [forallb] in Fm. apply andb_true_iff in Fm. destruct Fm as [He _].
+                 rewrite Et' in Hn'. cbn [app RunInvDefs.snext_t] in Hn'. congruence.
+        -- exfalso. unfold bnd in B. rewrite (lastS_all (d :: v1)) in B by (try discriminate; exact Fv).
+           rewrite Eu in B. cbn [app RunInvDefs.snext_t] in B.
+           rewrite ER, forallb_app in FR. apply andb_true_iff in FR. destruct FR as [_ FR].
+           cbn [forallb] in FR. apply andb_true_iff in FR. destruct FR as [He _]. rewrite He in B. discriminate.
+    + (* v = R ++ m reaches beyond R *)
+      destruct m as [|e m].
+      * (* m empty: v = R, the previous case with nothing left of R *)
+        rewrite app_nil_r in Ev. cbn [app] in Et. subst v. subst t.
+        assert (Fv' : forallb (inS S) v' = true) by (apply strip_nil; rewrite <- Hst; apply strip_all, FR).
+        apply app_eq_app in Ey. destruct Ey as (m' & [[ER' Eu'] | [Ev' Et']]).
+        -- destruct v' as [|d' v1'].
+           ++ exfalso. cbn [app] in ER'. subst m'.
+              assert (Hs : snext_t S u' = true) by (rewrite Eu'; apply snext_app_all; assumption).
+              rewrite <- (RS_snext S _ _ Hu) in Hs. congruence.
+           ++ destruct m' as [|e' m'].
+              ** rewrite app_nil_r in ER'. subst R'.
+                 rewrite <- (app_nil_r R), <- (app_nil_r (d' :: v1')).
+                 apply RS_run; try assumption; try reflexivity; constructor.
+              ** exfalso. unfold bnd in B'. rewrite (lastS_all (d' :: v1')) in B' by (try discriminate; exact Fv').
+                 rewrite Eu' in B'. cbn [app RunInvDefs.snext_t] in B'.
+                 rewrite ER', forallb_app in FR'. apply andb_true_iff in FR'. destruct FR' as [_ FR'].
+                 cbn [forallb] in FR'. apply andb_true_iff in FR'. destruct FR' as [He _]. rewrite He in B'. discriminate.
+        -- destruct m' as [|e' m'].
+           ++ rewrite app_nil_r in Ev'. subst v'.
+              rewrite <- (app_nil_r R), <- (app_nil_r R').
+              apply RS_run; try assumption; try reflexivity; constructor.
+           ++ exfalso. rewrite Ev', forallb_app in Fv'. apply andb_true_iff in Fv'. destruct Fv' as [_ Fm].
+              cbn [forallb] in Fm. apply andb_true_iff in Fm. destruct Fm as [He _].
+              rewrite Et' in Hn'. cbn [app RunInvDefs.snext_t] in Hn'. congruence.
+      * assert (He : inS S e = false) by (rewrite Et in Hn; exact Hn).
+        assert (Hsm : strip v = e :: strip m).
+        { rewrite Ev, strip_app, (strip_all R FR). unfold strip. cbn [app filter]. rewrite He. reflexivity. }
+        apply app_eq_app in Ey. destruct Ey as (m' & [[ER' Eu'] | [Ev' Et']]).
+        -- exfalso. assert (Fv' : forallb (inS S) v' = true).
+           { rewrite ER', forallb_app in FR'. apply andb_true_iff in FR'. apply FR'. }
+           rewrite (strip_all v' Fv'), Hsm in Hst. discriminate.
+        -- destruct m' as [|e' m'].
+           ++ exfalso. rewrite app_nil_r in Ev'. subst v'. rewrite (strip_all R' FR'), Hsm in Hst. discriminate.
+           ++ assert (He' : inS S e' = false) by (rewrite Et' in Hn'; exact Hn').
+              rewrite Ev, Ev'. apply RS_run; try assumption.
+              apply (IH (e :: m) u (e' :: m') u' Et Et' Hu).
+              ** rewrite Ev, Ev', !strip_app, (strip_all R FR), (strip_all R' FR') in Hst. exact Hst.
+              ** unfold bnd in *. rewrite Ev, lastS_app in B by discriminate. exact B.
+              ** unfold bnd in *. rewrite Ev', lastS_app in B' by discriminate. exact B'.
+Qed.
+
 End RunLex.
